@@ -267,9 +267,31 @@ def run(ctx):
             rep.check(set(flags) <= have, "D3-EXECUTABLE", where(f), "return-TRUE",
                       "%s target reported executable only when %s are detected" % (tname, flags),
                       "%s returns TRUE on a path that tested only %s; needs %s" % (fn, sorted(have), flags), line=r.line)
-        # the flags word tested comes from detection
-        src_ok = any(c.name in ("orc_sse_get_cpu_flags", "orc_mmx_get_cpu_flags") for c in f.calls())
+        # the flags word tested comes from detection - and it is the word in which the detection code sets the bits that are tested
+        # (the SSE/AVX and the MMX enumerations number their bits independently: MMX_MMX and SSE_SSE2 are both bit 0)
+        cpu = db.tu("orccpu-x86")
+        word_of_enum = {}
+        for g in cpu.main_functions():
+            for n in g.walk():
+                if n.k == "CompoundAssignOperator" and n.op == "|=" and access_path(n.c[0]) in ("orc_x86_sse_flags", "orc_x86_mmx_flags"):
+                    for x in n.c[1].walk():
+                        if x.k == "DeclRefExpr" and x.get("dk") == "enum":
+                            word_of_enum.setdefault(x.name, set()).add(access_path(n.c[0]))
+        word_of_getter = {}
+        for g in cpu.main_functions():
+            rr = [strip_casts(r.c[0]) for r in g.walk() if r.k == "ReturnStmt" and r.c and r.c[0] is not None]
+            if len(rr) == 1 and access_path(rr[0]) in ("orc_x86_sse_flags", "orc_x86_mmx_flags"):
+                word_of_getter[g.name] = access_path(rr[0])
+        getters = [c.name for c in f.calls() if c.name in word_of_getter]
+        src_ok = bool(getters)
         rep.check(src_ok, "D3-EXECUTABLE", where(f), "flags-from-detection", "tests the detected flag word", "does not consult the detected cpu flags")
+        words = {word_of_getter[gname] for gname in getters}
+        wrong = [fl for fl in flags if word_of_enum.get(fl) and not (word_of_enum[fl] & words)]
+        rep.check(not wrong, "D3-EXECUTABLE", where(f), "flag-word-matches-bits",
+                  "the bits tested (%s) are bits of the word that %s returns" % (", ".join(flags), "/".join(getters)),
+                  "%s tests %s in the word returned by %s (%s), but the cpuid handlers set that bit in %s: with the two enumerations numbered "
+                  "independently the test looks at another feature's bit (the target is marked executable, or not, for the wrong CPUs)" %
+                  (fn, ", ".join(wrong), "/".join(getters), "/".join(sorted(words)), "/".join(sorted(set().union(*[word_of_enum[w] for w in wrong]))) if wrong else ""))
     # all OrcTarget objects: `executable` is 0 or comes from x86t->is_executable()
     nt = 0
     for t in db.tus.values():
